@@ -84,6 +84,8 @@ class PropertyRun:
         for v in variants:
             if v.get('tier', 'quick') == 'thorough' and self.tier != 'thorough':
                 continue
+            if v.get('kind') == 'known' and not v['known'].startswith(self.pid + '.'):
+                continue  # finding of another property that shares this unit
             t = u.text
             for old, new in v['replace']:
                 if old not in t:
@@ -173,7 +175,8 @@ class PropertyRun:
                 for u in group:
                     sc.apply_unit(u)
                 for u in group:
-                    hs = [h for h in u.harnesses if h.tier == 'quick' or self.tier == 'thorough']
+                    hs = [h for h in u.harnesses if (h.tier == 'quick' or self.tier == 'thorough')
+                          and h.obligation.startswith(self.pid + '.')]
                     if not hs:
                         continue
                     info = K.run_unit(sc, u, hs, self.work)
